@@ -12,6 +12,7 @@ import (
 	"io"
 	"os"
 	"reflect"
+	"strings"
 
 	"github.com/parquet-go/parquet-go"
 	"github.com/parquet-go/parquet-go/encoding/thrift"
@@ -190,4 +191,87 @@ func chunkCounts(rg parquet.RowGroup) []string {
 		out = append(out, fmt.Sprintf("%s.%x.%x", b01(exact), ch.NumValues(), delivered))
 	}
 	return out
+}
+
+// sortingNotTrue evaluates the sorting_columns a row group of the output
+// records on the rows it holds: "" when consecutive rows are in the recorded
+// lexicographic order (direction and placement of nulls of every recorded
+// column), else a description of the first pair of rows that is not.  A
+// recorded column that is no column of the schema, or a repeated one, is
+// itself a false record.
+func sortingNotTrue(schema *parquet.Schema, recorded []format.SortingColumn, rows []parquet.Row) string {
+	if len(recorded) == 0 {
+		return ""
+	}
+	paths := schema.Columns()
+	type col struct {
+		idx  int
+		typ  parquet.Type
+		desc bool
+		nf   bool
+	}
+	var cols []col
+	var names []string
+	for _, sc := range recorded {
+		ci := int(sc.ColumnIdx)
+		if ci < 0 || ci >= len(paths) {
+			return fmt.Sprintf("recorded sorting column index %d is no column of the schema (%d columns)", ci, len(paths))
+		}
+		leaf, ok := schema.Lookup(paths[ci]...)
+		if !ok {
+			return fmt.Sprintf("recorded sorting column %v cannot be looked up", paths[ci])
+		}
+		if leaf.MaxRepetitionLevel > 0 {
+			return fmt.Sprintf("recorded sorting column %v is repeated", paths[ci])
+		}
+		cols = append(cols, col{ci, leaf.Node.Type(), sc.Descending, sc.NullsFirst})
+		dir := "ascending"
+		if sc.Descending {
+			dir = "descending"
+		}
+		names = append(names, fmt.Sprintf("%s(%s)", dir, strings.Join(paths[ci], ".")))
+	}
+	valueOf := func(r parquet.Row, ci int) (parquet.Value, bool) {
+		for _, v := range r {
+			if v.Column() == ci {
+				return v, true
+			}
+		}
+		return parquet.Value{}, false
+	}
+	for i := 1; i < len(rows); i++ {
+		for _, sc := range cols {
+			a, oka := valueOf(rows[i-1], sc.idx)
+			b, okb := valueOf(rows[i], sc.idx)
+			if !oka || !okb {
+				break
+			}
+			cmp := 0
+			switch {
+			case a.IsNull() && b.IsNull():
+			case a.IsNull():
+				cmp = 1
+				if sc.nf {
+					cmp = -1
+				}
+			case b.IsNull():
+				cmp = -1
+				if sc.nf {
+					cmp = 1
+				}
+			default:
+				cmp = sc.typ.Compare(a, b)
+				if sc.desc {
+					cmp = -cmp
+				}
+			}
+			if cmp < 0 {
+				break
+			}
+			if cmp > 0 {
+				return fmt.Sprintf("records sorting columns [%s]; row %d holds %v in column %d, the row before it %v", strings.Join(names, ", "), i, b, sc.idx, a)
+			}
+		}
+	}
+	return ""
 }
